@@ -2,7 +2,7 @@
 from __future__ import annotations
 
 from .. import calg, jmodel as J
-from ..core import AnalysisError
+from ..core import AnalysisError, norm_text
 from ..cskel import Skel
 from ..odemodel import model, Y, YDOT, FILE, not_understood
 from ..valueflow import as_map, lower, match, V, show, simp, prefix_map, norm_bv, walk
@@ -179,6 +179,8 @@ def check(ctx):
     from .c17 import stateless_renderer
     from ..pymodel import package as _package
     stateless_renderer(ctx, _package(ctx.tree), "R11")
+    # the reactions the terms are assembled from are the input reactions: nothing edits their lists in place after construction
+    reaction_lists_frozen(ctx, "R12")
 
 
 def reaction_sites(ctx, m, r_loss="R2", r_gain="R3"):
@@ -265,6 +267,35 @@ def _paired_rows(fv):
     return None
 
 
+def _compound_assignment(ctx, elt):
+    """(helper name, line, text) when the statement text `elt` is produced by a helper of TemplateLoader / of the module whose
+    string templates contain a compound assignment operator (`+=`, `-=`, `{sign}=` ...), else None"""
+    import ast
+    import re
+    from ..pymodel import package
+    pkg = package(ctx.tree)
+    for x in walk(elt):
+        if not (isinstance(x, tuple) and x and x[0] in ("meth", "call")):
+            continue
+        fn = None
+        if x[0] == "meth" and x[1] in (("param", "self"), ("param", "cls")):
+            fn = pkg.resolve("TemplateLoader", x[2])[1]
+        elif x[0] == "call" and x[1][0] == "global":
+            fn = pkg.functions.get((FILE, x[1][1]))
+        if fn is None:
+            continue
+        for n in ast.walk(fn):
+            if isinstance(n, ast.JoinedStr):
+                for i, part in enumerate(n.values):
+                    if isinstance(part, ast.Constant) and isinstance(part.value, str):
+                        after_hole = i > 0 and isinstance(n.values[i - 1], ast.FormattedValue)
+                        if re.search(r"[-+*/]=(?!=)", part.value) or (after_hole and re.match(r"=(?!=)", part.value)):
+                            return fn.name, n.lineno, ast.unparse(n)[:120]
+            elif isinstance(n, ast.Constant) and isinstance(n.value, str) and re.search(r"\w\]?\s*[-+*/]=(?!=)", n.value):
+                return fn.name, n.lineno, repr(n.value)[:120]
+    return None
+
+
 def _r4(ctx, m):
     fl = m.flow
     env = fl.env
@@ -324,7 +355,14 @@ def _r4(ctx, m):
             # wrong only when the statement text is made of the two paired entries and literal text, and the right-hand entries are
             # a table this function fills; anything else is a pairing that is not understood
             plain = elt[0] == "fstr" and all(p_[0] == "const" or (p_[0] == "fmt" and p_[1] in (("L",), ("R",))) for p_ in elt[1]) and (b[0] == "acc" or a[0] == "acc")
-        if fv is None or (pr and not ok and not plain):
+        comp = _compound_assignment(ctx, elt) if pr and not ok and not plain else None
+        if comp:
+            # every row is ONE statement `lhs = <the whole sum>;`: a builder that emits `lhs -= a + b` style statements changes the sign
+            # of the later terms of a chunk / splits the sum the Jacobian and the conservation argument are about
+            ctx.bad("R4", "fex-zip", (FILE, comp[1]),
+                    f"the statement builder `{comp[0]}` emits compound assignments (`lhs <op>= ...`): the row is no longer the single assignment of the accumulated sum",
+                    expected="f'{l} = {r};'", found=comp[2])
+        elif fv is None or (pr and not ok and not plain):
             ctx.unrec("R4", "fex-zip", (FILE, m.func.lineno), f"how the statements pair lhs with rhs is not understood: {show(fv)[:160] if fv else 'fex not found'}")
         else:
             ctx.check(ok, "R4", "fex-zip", (FILE, m.func.lineno),
@@ -517,34 +555,8 @@ def _r6(ctx):
                                   found=None if ok else show(simp(fact.value))[:160])
     ctx.floor("R6", "reactant/product assignments", n_sites, 13)
     species_truthiness(ctx, "R6")
-    # _create_species returns None for pseudo-elements
-    fn = pkg.method("Component", "_create_species") and pkg.expanded("Component", "_create_species")
-    ctx.saw("naunet/component.py", "Component._create_species")
-    # by paths (any arrangement of the conditions): every path that constructs Species(name) has `name in known_pseudoelements()`
-    # false, and on the paths where it is true the function returns None
-    from ..valueflow import guards_satisfiable
-    cfl = Flow(fn, "naunet/component.py")
-    arg = ("param", fn.args.args[1].arg) if len(fn.args.args) > 1 else None
-    PSE = ("cmp", ("In",), (arg, ("meth", ("global", "Species"), "known_pseudoelements", (), ())))
-    def _paths(v, g):
-        """a returned conditional value is one return per arm"""
-        if v[0] in ("phi", "ifexp"):
-            return _paths(v[2], tuple(g) + ((v[1], True),)) + _paths(v[3], tuple(g) + ((v[1], False),))
-        return [(v, tuple(g))]
-    rets = [p_ for f in cfl.facts if f.kind == "return" for p_ in _paths(simp(f.value) if f.value else ("const", None), f.guards)]
-    makes = [(v, g) for v, g in rets if v[0] == "call" and v[1] == ("global", "Species")]
-    if not makes:
-        ctx.unrec("R6", "Component._create_species:pseudo-filter", ("naunet/component.py", fn.lineno),
-                  "no path of _create_species returns Species(<name>) directly: where the species is constructed is not understood")
-        makes = None
-    ok = bool(makes) and all(v[2] and v[2][0] == arg for v, g in makes) and all(not guards_satisfiable(g, [(PSE, True)]) for v, g in makes)
-    # on a pseudo-element path (name is a non-empty str in the list) only None can be returned
-    for v, g in rets:
-        if guards_satisfiable(g, [(PSE, True), (arg, True), (("call", ("global", "isinstance"), (arg, ("global", "Species")), ()), False)]) and v != ("const", None):
-            ok = False
-    if makes is not None:
-        ctx.check(ok, "R6", "Component._create_species:pseudo-filter", ("naunet/component.py", fn.lineno),
-                  "Species(..) is constructed only for names not in Species.known_pseudoelements(); otherwise None is returned")
+    pseudo_filter(ctx, "R6")
+    _paths = _return_paths
     # the list consulted is the CONFIGURED pseudo-element list whenever any list was configured
     kp = pkg.method("Species", "known_pseudoelements") and pkg.expanded("Species", "known_pseudoelements")
     ctx.saw("naunet/species.py", "Species.known_pseudoelements")
@@ -591,6 +603,79 @@ def _r6(ctx):
               "pseudo-elements, a real species whose name is a DEFAULT pseudo-element (e.g. a species named M) is silently dropped from the reaction terms",
               expected="default_pseudoelements if (not _known_elements and not _known_pseudoelements) else _known_pseudoelements",
               found="; ".join(f"{show(v)[:40]} if {[('' if p else 'not ') + show(g)[:60] for g, p in gs]}" for v, gs in rets))
+
+
+def _return_paths(v, g):
+    """a returned conditional value is one return per arm"""
+    if v[0] in ("phi", "ifexp"):
+        return _return_paths(v[2], tuple(g) + ((v[1], True),)) + _return_paths(v[3], tuple(g) + ((v[1], False),))
+    return [(v, tuple(g))]
+
+
+def pseudo_filter(ctx, rule):
+    """Component._create_species is the one gate between the names of a reaction and its reactant / product lists (rule shared with
+    C04).  By return paths, whatever the arrangement of the conditions and the helpers they were moved into: (a) Species(name) is
+    constructed only for names that are not in Species.known_pseudoelements(), and on a pseudo-element path only None comes back;
+    (b) nothing ELSE is dropped: a path that returns None for a non-empty name that is NOT in the known pseudo-elements removes a
+    real species from the reaction (its terms lose a factor, its own equation loses the term, elements and charge are not conserved)."""
+    from ..pymodel import package
+    from ..valueflow import Flow, guards_satisfiable, _bool_atoms
+    pkg = package(ctx.tree)
+    F = "naunet/component.py"
+    fn = pkg.method("Component", "_create_species") and pkg.expanded("Component", "_create_species")
+    ctx.saw(F, "Component._create_species")
+    # predicate helpers the test was moved into (a method of the class, a function of the module) are read as the condition they return
+    cfl = Flow(fn, F, func_resolver=lambda name: pkg.functions.get((F, name)),
+               resolver=lambda name: (pkg.resolve("Component", name)[1] if name != "_create_species" else None))
+    arg = ("param", fn.args.args[1].arg) if len(fn.args.args) > 1 else None
+    KP = ("meth", ("global", "Species"), "known_pseudoelements", (), ())
+    rets = [p_ for f in cfl.facts if f.kind == "return" for p_ in _return_paths(simp(f.value) if f.value else ("const", None), f.guards)]
+    makes = [(v, g) for v, g in rets if v[0] == "call" and v[1] == ("global", "Species")]
+    key = "Component._create_species:pseudo-filter"
+    if not makes:
+        ctx.unrec(rule, key, (F, fn.lineno), "no path of _create_species returns Species(<name>) directly: where the species is constructed is not understood")
+        return
+    names = {v[2][0] if v[2] else None for v, g in makes}
+    N = next(iter(names))
+    # the name looked up may be the argument with surrounding blanks removed
+    stripped = (("meth", arg, "strip", (), ()), ("ifexp", arg, ("meth", arg, "strip", (), ()), arg), ("phi", arg, ("meth", arg, "strip", (), ()), arg))
+    if len(names) != 1 or N is None or (N != arg and N not in stripped):
+        ctx.unrec(rule, key, (F, fn.lineno), "the species is not constructed from the name handed in: " + "; ".join(show(n)[:60] if n else "?" for n in names))
+        return
+    PSE = ("cmp", ("In",), (N, KP))
+    ISS = ("call", ("global", "isinstance"), (arg, ("global", "Species")), ())
+    real = [(N, True), (arg, True), (ISS, False)]
+    ok = all(not guards_satisfiable(g, [(PSE, True)]) for v, g in makes)
+    # on a pseudo-element path (name is a non-empty str in the list) only None can be returned
+    for v, g in rets:
+        if guards_satisfiable(g, [(PSE, True)] + real) and v != ("const", None):
+            ok = False
+    ctx.check(ok, rule, key, (F, fn.lineno),
+              "Species(..) is constructed only for names not in Species.known_pseudoelements(); otherwise None is returned")
+    # (b) a non-empty name that is not a known pseudo-element is never dropped
+    key = "Component._create_species:drops-pseudo-only"
+    drops = [(v, g) for v, g in rets if v[0] == "const" and not v[1] and guards_satisfiable(g, [(PSE, False)] + real)]
+    if not drops:
+        ctx.ok(rule, key, (F, fn.lineno), "None is returned only for empty names and names in Species.known_pseudoelements()")
+        return
+    base = set()
+    for c, _ in [(PSE, True)] + real:
+        _bool_atoms(simp(c), base)
+    extra = set()
+    for v, g in drops:
+        for c, _ in g:
+            _bool_atoms(simp(c), extra)
+    extra -= base
+    from ..valueflow import subst
+    unread = [x for x in extra if not_understood(subst(x, {KP: ("const", "<known pseudo-elements>")}))]        # (the list itself is understood)
+    if unread:
+        ctx.unrec(rule, key, (F, fn.lineno), "a name may be dropped under a condition the analysis cannot read: " + "; ".join(show(x)[:80] for x in unread)[:240])
+    else:
+        ctx.bad(rule, key, (F, fn.lineno),
+                "_create_species returns None for a non-empty name that is NOT in Species.known_pseudoelements() (when " + "; ".join(show(x)[:80] for x in sorted(extra, key=repr))[:300]
+                + "): a real species is silently removed from the reactants / products, its reactions lose a factor and a term, elements and charge are not conserved",
+                expected="None only for empty names and exact members of Species.known_pseudoelements()",
+                found="; ".join("return None if " + " and ".join(("" if p else "not ") + show(simp(c))[:100] for c, p in g) for v, g in drops)[:400])
 
 
 def species_truthiness(ctx, rule):
@@ -659,6 +744,13 @@ def _filtered_create(v, fl=None):
                 return False, "no truthiness filter on the created species: a marker token would enter the list as None"
         return True, ""
     m = as_map(v) if v[0] in ("comp", "copy") else None
+    if m is None or not is_create(m[1]):
+        # the created species pass through a container that identifies equal keys: a reactant named twice (H + H) is kept once
+        for x in walk(v):
+            if isinstance(x, tuple) and x and ((x[0] == "comp" and x[1] in ("dict", "set")) or (x[0] == "call" and x[1] in (("global", "set"), ("global", "frozenset")))
+                                              or (x[0] in ("call", "meth") and "fromkeys" in (x[2] if x[0] == "meth" else str(x[1])))) \
+                    and any(is_create(y) for y in walk(v) if isinstance(y, tuple) and y):
+                return False, "the created species are collected in a dict / set keyed by the name: a species that occurs twice in the list (H + H -> H2) is kept once"
     if m is None:
         return None, f"reactant/product list assigned from an unrecognised expression"
     bv, body, base, ifs = m
@@ -669,6 +761,86 @@ def _filtered_create(v, fl=None):
     if (body, True) not in conds:
         return False, "no truthiness filter on the created species: a marker token would enter the list as None"
     return True, ""
+
+
+_LIST_EDITS = {"append", "extend", "insert", "remove", "pop", "clear", "__delitem__", "__setitem__", "__iadd__", "__imul__"}
+
+
+def reaction_lists_frozen(ctx, rule):
+    """The ODE terms are assembled from `react.reactants` / `react.products` AFTER the rate expressions were built from the same
+    objects: the law emitted is the law of the input network only if nothing edits those lists in place once a reaction is
+    constructed.  Wrong for certain: a list-editing call / item store / `del` / `+=` on `<x>.reactants` / `<x>.products` -- or on a
+    local that is an ALIAS of one (`lst = reac.reactants`, no copy) -- where <x> is not the object under construction (`self` inside
+    the reaction classes' own methods that are not rate builders).  A copy (`list(..)`, `[..]`, slicing, `.copy()`) may be edited freely.
+    (Rule shared with C04.)"""
+    import ast
+    from ..pymodel import package
+    pkg = package(ctx.tree)
+    ATTRS = ("reactants", "products")
+    n_funcs = n_reads = 0
+
+    def list_attr(e):
+        return isinstance(e, ast.Attribute) and e.attr in ATTRS
+
+    def owner_self(e, fn, cls):
+        """`self.reactants` inside a method of a reaction-like class that builds the object (not a rate / format method)"""
+        return isinstance(e.value, ast.Name) and fn.args.args and e.value.id == fn.args.args[0].arg and cls is not None \
+            and not (fn.name.startswith("rate") or fn.name in ("__format__", "__str__", "__repr__", "__eq__", "__hash__", "__lt__"))
+
+    todo = [(ci.file, ci.name, fn) for ci in pkg.classes.values() for fn in ci.methods.values()] + [(f, None, fn) for (f, _), fn in pkg.functions.items()]
+    for file, cls, fn in todo:
+        n_funcs += 1
+        aliases = {}
+        for st in ast.walk(fn):
+            if isinstance(st, ast.Assign) and len(st.targets) == 1 and isinstance(st.targets[0], ast.Name):
+                v = st.value
+                alts = [v]
+                if isinstance(v, ast.IfExp):
+                    alts = [v.body, v.orelse]
+                elif isinstance(v, ast.BoolOp):
+                    alts = list(v.values)
+                for a in alts:
+                    if list_attr(a) and not owner_self(a, fn, cls):
+                        aliases[st.targets[0].id] = a
+        # a name re-bound to anything else as well is still an alias on some path: kept (the edit is judged where it stands)
+
+        def target(e):
+            """the reaction list an expression denotes by identity: the attribute itself or an alias of it"""
+            if list_attr(e) and not owner_self(e, fn, cls):
+                return ast.unparse(e)
+            if isinstance(e, ast.Name) and e.id in aliases:
+                return f"{e.id} (= {ast.unparse(aliases[e.id])})"
+            return None
+        # (a local bound more than once may hold a copy by the time it is edited: no verdict on those)
+        stores = {}
+        for x in ast.walk(fn):
+            if isinstance(x, ast.Name) and isinstance(x.ctx, ast.Store):
+                stores[x.id] = stores.get(x.id, 0) + 1
+        aliases = {k: v for k, v in aliases.items() if stores.get(k, 0) == 1}
+        hits = []
+        for n in ast.walk(fn):
+            if isinstance(n, ast.Attribute) and n.attr in ATTRS:
+                n_reads += 1
+            if isinstance(n, ast.Call) and isinstance(n.func, ast.Attribute) and n.func.attr in _LIST_EDITS and target(n.func.value):
+                hits.append((n, f"{target(n.func.value)}.{n.func.attr}(..)"))
+            elif isinstance(n, (ast.Assign, ast.AugAssign, ast.Delete)):
+                for t in (n.targets if isinstance(n, (ast.Assign, ast.Delete)) else [n.target]):
+                    if isinstance(t, ast.Subscript) and target(t.value):
+                        hits.append((n, ast.unparse(n)[:80]))
+                    elif isinstance(n, ast.AugAssign) and isinstance(n.op, (ast.Add, ast.Mult)) and isinstance(t, ast.Name) and t.id in aliases:
+                        hits.append((n, ast.unparse(n)[:80]))
+                    elif isinstance(n, ast.AugAssign) and isinstance(n.op, (ast.Add, ast.Mult)) and list_attr(t) and not owner_self(t, fn, cls):
+                        hits.append((n, ast.unparse(n)[:80]))
+        for n, what in hits:
+            ctx.bad(rule, f"{cls + '.' if cls else ''}{fn.name}:edits-reaction-list:{norm_text(what)[:60]}", (file, n.lineno),
+                    f"`{what}` edits the reactant / product list of a reaction object in place (no copy): every later reader -- the ODE terms of "
+                    "_prepare_ode_content are assembled after the rates -- sees a reaction that is not the input reaction (a reactant factor and its loss term vanish)",
+                    expected="a copy: list(reac.reactants) / reac.reactants.copy() / a comprehension", found=what)
+    ctx.floor(rule, "functions scanned for in-place edits of reaction lists", n_funcs, 100)
+    ctx.floor(rule, "reads of .reactants / .products", n_reads, 40)
+    if not any(o.rule == rule and "edits-reaction-list" in o.key for o in ctx.obs):
+        ctx.ok(rule, "reaction-lists-frozen", ("naunet/reactions/reaction.py", 0),
+               f"no function of the package edits <reaction>.reactants / .products (or an alias) in place outside the reaction's own construction ({n_funcs} functions, {n_reads} reads)")
 
 
 def rhs_writers(ctx, rule):
@@ -757,6 +929,7 @@ def _r8(ctx):
         good = e == var
         detail = []
         reps = []
+        unknown = []
         for name, args, kw in fs:
             if name in WS_FILTERS:
                 # break_long_words=False lives in utilities._stmwrap (checked below)
@@ -768,6 +941,7 @@ def _r8(ctx):
                 reps.append((args[0][1], args[1][1]))
                 continue
             good = False
+            unknown.append(name)
             detail.append(f"filter {name} may alter the equation text")
         if label.endswith("cusparse"):
             want = {("ydot[IDX", "ydot[yistart + IDX"), ("y[IDX", "y_cur[IDX")}
@@ -784,9 +958,16 @@ def _r8(ctx):
         elif reps:
             good = False
             detail.append(f"unexpected replace filters {reps}")
-        ctx.check(good, "R8", key, (rel, outs[0][2]),
-                  f"{fname} outputs each ode.fex entry once through whitespace-only filters" if good else "; ".join(detail),
-                  found=J.show(outs[0][1]))
+        if e != var and not any(x == var for x in _subterms(e)):
+            # the output does not mention the loop variable at all: what is pasted is not understood
+            ctx.unrec("R8", key, (rel, outs[0][2]), f"the loop over ode.fex outputs {J.show(outs[0][1])[:120]}, not its own variable")
+        elif unknown and len(detail) == len(unknown):
+            # a filter the analysis has no model of (not naunet's layout filters, not `replace`): whether it alters the text is not known
+            ctx.unrec("R8", key, (rel, outs[0][2]), "the equation passes through filter(s) the analysis has no model of: " + ", ".join(unknown))
+        else:
+            ctx.check(good, "R8", key, (rel, outs[0][2]),
+                      f"{fname} outputs each ode.fex entry once through whitespace-only filters" if good else "; ".join(detail),
+                      found=J.show(outs[0][1]))
         n += 1
     ctx.floor("R8", "back-end RHS functions", n, 4)
     # _stmwrap never breaks inside a token
@@ -871,6 +1052,9 @@ MUTANTS = [
     {"name": "species-len-makes-electron-falsy", "file": "naunet/species.py", "old": "    def __hash__(self) -> int:\n", "new": "    def __len__(self) -> int:\n        return len(self.element_count)\n\n    def __hash__(self) -> int:\n", "rules": ["R6"]},
     {"name": "lhs-sorted", "file": T, "old": 'lhs = [f"ydot[IDX_{x.alias}]" for x in species]', "new": 'lhs = [f"ydot[IDX_{x.alias}]" for x in sorted(species)]', "rules": ["R4"]},
     {"name": "create-species-no-filter", "file": "naunet/reactions/reaction.py", "old": "[self._create_species(r) for r in reactants if self._create_species(r)]", "new": "[self._create_species(r) for r in reactants]", "rules": ["R6"]},
+    {"name": "rate-builder-strips-grain-through-alias", "file": "naunet/grains/hh93grain.py", "old": "        [spec] = [s for s in reac.reactants if not s.is_grain]\n", "new": "        others = reac.reactants\n        others.remove(next(s for s in others if s.is_grain))\n        [spec] = others\n", "rules": ["R12"]},
+    {"name": "create-species-drops-lowercase-names", "file": "naunet/component.py", "old": "if species_name and species_name not in Species.known_pseudoelements():", "new": "if species_name and species_name not in Species.known_pseudoelements() and not species_name.islower():", "rules": ["R6"]},
+    {"name": "thermal-reactants-through-dict", "file": "naunet/thermalprocess.py", "old": "        self._reactants = [\n            self._create_species(r) for r in reactants if self._create_species(r)\n        ]\n", "new": "        created = {r: self._create_species(r) for r in reactants}\n        self._reactants = [spec for spec in created.values() if spec is not None]\n", "rules": ["R6"]},
     {"name": "tgas-macro", "file": "naunet/templates/base/cpp/include/naunet_macros.h.j2", "old": "#define IDX_TGAS NSPECIES", "new": "#define IDX_TGAS NEQUATIONS", "rules": ["R4"]},
 ]
 BENIGN = [
@@ -909,5 +1093,13 @@ BENIGN = [
     {"name": "fex-pasted-by-macro", "edits": [
         {"file": TEMPLATES["cvode"], "old": "#include <math.h>\n", "new": '{% macro paste(eqs, width, indent) %}{% for line in eqs -%}\n        {{ line | stmwrap(width, indent) }}\n    {% endfor %}{% endmacro %}\n#include <math.h>\n', "count": 1},
         {"file": TEMPLATES["cvode"], "old": "    {% for eq in ode.fex -%}\n        {{ eq | stmwrap(80, 8) }}\n    {% endfor %}\n", "new": "    {{ paste(ode.fex, 80, 8) }}\n"}]},
+    {"name": "rate-builder-edits-a-copy", "file": "naunet/grains/hh93grain.py", "old": "        [spec] = [s for s in reac.reactants if not s.is_grain]\n", "new": "        others = list(reac.reactants)\n        others.remove(next(s for s in others if s.is_grain))\n        [spec] = others\n"},
+    {"name": "create-species-predicate-helper", "edits": [
+        {"file": "naunet/component.py", "old": "if species_name and species_name not in Species.known_pseudoelements():", "new": "if species_name and not _is_pseudo(species_name):"},
+        {"file": "naunet/component.py", "old": "class Component:\n", "new": "def _is_pseudo(name):\n    known = Species.known_pseudoelements()\n    if name in known:\n        return True\n    return False\n\n\nclass Component:\n", "count": 1}]},
+    {"name": "wrap-by-module-function", "edits": [
+        {"file": T, "old": "# define in this file to avoid circular import\n", "new": "def _to_temperature_rate(expr):\n    return f\"(gamma - 1.0) * ( {expr} ) / kerg / npar\"\n\n\n# define in this file to avoid circular import\n", "count": 1},
+        {"file": T, "old": 'rhs[n_spec] = f"(gamma - 1.0) * ( {rhs[n_spec]} ) / kerg / npar"', "new": "rhs[n_spec] = _to_temperature_rate(rhs[n_spec])"}]},
+    {"name": "fex-loop-over-map-pipeline", "file": TEMPLATES["cvode"], "old": "    {% for eq in ode.fex -%}\n        {{ eq | stmwrap(80, 8) }}\n    {% endfor %}\n", "new": "    {% for stm in ode.fex | map(\"stmwrap\", 80, 8) -%}\n        {{ stm }}\n    {% endfor %}\n"},
     {"name": "template-reindent", "file": TEMPLATES["cvode"], "old": "    {% for eq in ode.fex -%}\n        {{ eq | stmwrap(80, 8) }}", "new": "    {% for eq in ode.fex -%}\n      {{ eq|stmwrap(80, 6) }}"},
 ]
